@@ -132,5 +132,10 @@ def guard_reject_set(root, walker, exits, pred, univ, empty, pure=False, allow=(
         if pure and any(o not in allow for o in ops):
             continue
         n += 1
-        s = s | gi.sat_set(f, univ, empty, assume={o: False for o in ops})
+        # union over those truth assignments of the other atoms under which the subject is decisive
+        import itertools
+        for bits in itertools.product((False, True), repeat=len(ops)):
+            sa = gi.f_eval(f, dict(zip(ops, bits)), univ, empty)
+            if not (sa == univ):
+                s = s | sa
     return s, n
